@@ -83,6 +83,8 @@ def storeLine (st : StoreSt) (line : String) : StoreSt :=
     if want == got then st
     else if got == "plain" && kind != "option" && p != "-" && p != "off" then
       setErr st s!"a DSN ({kind}) with encrypt={p} (encrypt_key: {dk}, environment key: {ek}) opened a store that writes plaintext"
+    else if want == "fail" && got == "enc" && (dk == "bad" || (dk == "-" && ek == "bad")) then
+      setErr st s!"encryption enabled by {kind} with an unusable key did not fail at open (a key that is not a 16, 24 or 32 byte AES key was accepted)"
     else if got == "plain" then setErr st s!"encryption requested by {kind} (key: {dk}, environment key: {ek}) and the store writes plaintext"
     else setDiff st s!"encryption wiring: {kind} encrypt={p} encrypt_key={dk} environment={ek}: the model (C17.fromURL) says {want}, observed {got}"
   | ["S", "SCAN", k, leak] => if leak == "true" then setErr st s!"a file contains a plaintext fragment of the value of {shw (unhex k)}" else st
